@@ -46,6 +46,12 @@ def base_model(ctx):
     return m
 
 
+def _ia(fn, args):
+    from mxlpy.types import InitialAssignment
+
+    return InitialAssignment(fn=fn, args=list(args))
+
+
 def mock(args, outputs, st):
     from mxlpy.surrogates.abstract import MockSurrogate
 
@@ -71,6 +77,15 @@ def ops():
         op(f"update_parameter({nm})")(lambda m, ctx, i, nm=nm: m.update_parameter(nm, V(ctx, i, "p")))
     for nm in ("k2", "n"):
         op(f"scale_parameter({nm})")(lambda m, ctx, i, nm=nm: m.scale_parameter(nm, V(ctx, i, "f")))
+    op("add_parameters(p1,p2)")(lambda m, ctx, i: m.add_parameters({"p1": V(ctx, i, "a"), "p2": V(ctx, i, "b")}))
+    op("add_parameters(p1,k1)")(lambda m, ctx, i: m.add_parameters({"p1": V(ctx, i, "a"), "k1": V(ctx, i, "b")}))
+    op("remove_parameters(ku,n)")(lambda m, ctx, i: m.remove_parameters(["ku", "n"]))
+    op("scale_parameters(k1,k2)")(lambda m, ctx, i: m.scale_parameters({"k1": V(ctx, i, "a"), "k2": V(ctx, i, "b")}))
+    op("add_variables(w1,w2)")(lambda m, ctx, i: m.add_variables({"w1": V(ctx, i, "a"), "w2": V(ctx, i, "b")}))
+    op("update_variables(x,y)")(lambda m, ctx, i: m.update_variables({"x": V(ctx, i, "a"), "y": V(ctx, i, "b")}))
+    op("remove_variables(z)")(lambda m, ctx, i: m.remove_variables(["z"]))
+    op("update_parameter(k1 -> assignment)")(lambda m, ctx, i: m.update_parameter("k1", _ia(R.twice, ["k2"])))
+    op("update_variable(y -> assignment)")(lambda m, ctx, i: m.update_variable("y", _ia(R.add, ["x", "k1"])))
     op("update_parameters(k1,k2)")(lambda m, ctx, i: m.update_parameters({"k1": V(ctx, i, "a"), "k2": V(ctx, i, "b")}))
     op("make_parameter_dynamic(ku)")(lambda m, ctx, i: m.make_parameter_dynamic("ku"))
     op("make_parameter_dynamic(ku,stoich v1)")(lambda m, ctx, i: m.make_parameter_dynamic("ku", initial_value=V(ctx, i, "iv"), stoichiometries={"v1": 1.0}))
@@ -126,6 +141,7 @@ def ops():
 
 # operation instances that expose an open finding on their own: probed alone, kept out of composite histories
 TAINTED = {
+    "add_parameters(p1,k1)",
     "make_parameter_dynamic(ku,stoich nope)", "add_surrogate(s2 output clashes k1)", "update_surrogate(sur output clashes k1)",
 }
 
